@@ -141,6 +141,29 @@ func (t *Transport) DropTrailers() {
 	c.mu.Unlock()
 }
 
+// BreakLast makes the most recent call's connection fail with err: the client
+// sees a transport error on the response body, the server a broken request
+// body, and the client's request pipe is closed with err.
+func (t *Transport) BreakLast(err error) {
+	t.mu.Lock()
+	if len(t.calls) == 0 {
+		t.mu.Unlock()
+		return
+	}
+	c := t.calls[len(t.calls)-1]
+	t.mu.Unlock()
+	c.mu.Lock()
+	c.dropTrailers = true
+	c.mu.Unlock()
+	c.resp.finish(err)
+	if c.reqBuf != nil {
+		c.reqBuf.finish(err)
+	}
+	if pr, ok := c.req.Body.(*io.PipeReader); ok {
+		_ = pr.CloseWithError(err)
+	}
+}
+
 // AbortAll tears every in-flight call down (used after a detected deadlock so
 // that the bubble can be left).
 func (t *Transport) AbortAll() {
